@@ -103,7 +103,7 @@ var controls = []control{
 	{"chan-iter-value-dropped", []string{"C10"}, false, "seq/iter.go", "\tc.v, ok = <-c.ch\n", "\t_, ok = <-c.ch\n", "ITER.CHAN"},
 	{"slice-iter-reads-first-element", []string{"C10"}, false, "seq/iter.go", "return pair[int, V]{Key: s.idx, Val: s.slice[s.idx]}", "return pair[int, V]{Key: s.idx, Val: s.slice[0]}", "ITER.LIVE"},
 	{"map-iter-skips-entries", []string{"C10", "C04"}, false, "seq/iter.go", "\treturn m.iter.Next()\n", "\tm.iter.Next()\n\treturn m.iter.Next()\n", "ITER.MAP"},
-	{"current-advances", []string{"C10"}, false, "seq/iter.go", "\treturn pair[T, any]{Key: i.i}\n", "\ti.i++\n\treturn pair[T, any]{Key: i.i - 1}\n", "ITER.IV"},
+	{"current-advances", []string{"C10"}, false, "seq/iter.go", "\treturn pair[T, any]{Key: i.i}\n", "\ti.i++\n\treturn pair[T, any]{Key: i.i - 1}\n", "ITER.PURE"},
 	{"redundant-return-removed-when-reachable", []string{"C01"}, false, "rewriter/yield_rewrite.go", "\t\t\t\t\tif r.isTerminating(X.Block(stmts...)) {\n\t\t\t\t\t\tbody.List = stmts", "\t\t\t\t\tif !r.isTerminating(X.Block(stmts...)) {\n\t\t\t\t\t\tbody.List = stmts", "RW.BRANCHCTX.RMRET"},
 	{"native-range-body-not-visited", []string{"C12"}, false, "rewriter/yield_rewrite.go", "\t\t\tr.rewriteBlockStmt(rg.Body, kindFor)\n", "\t\t\t_ = rg\n", "RW.DEEPVISIT"},
 	{"seq-used-under-other-name", []string{"C11"}, false, "rewriter/rewrite.go", "\t\t\tseqName = importSeqName\n", "\t\t\tseqName = pkgSeqName\n", "RW.IMPORT"},
